@@ -62,3 +62,212 @@ pub fn c13_native_recombination_counts() {
     }
     println!("c13_native_recombination_counts: {} cases checked", cases);
 }
+
+// ------------------------------------------------------------------------------------------------------------------
+// BOUNDED STAND-IN (not a proof) for the mutation COMPONENTS (`execute` bodies over State + the thread RNG; neither verifier
+// reaches them): "permutation operators return a permutation of the same elements ... real- and bit-valued mutations keep
+// the dimension and leave unchanged whatever a mutation rate of zero excludes ... no operator ... panics, or errs on a valid
+// population".  Native runs of the real components for solution lengths 2..=6, population sizes 0..=3 and 64 seeds.
+use crate::components::mutation::common::{
+    BitFlipMutation, InsertionMutation, InversionMutation, NormalMutation, PartialRandomBitstring, PartialRandomSpread,
+    ScrambleMutation, SwapMutation, TranslocationMutation, UniformMutation,
+};
+use crate::problems::LimitedVectorProblem;
+
+pub struct PermProblem(pub usize);
+impl Problem for PermProblem {
+    type Encoding = Vec<usize>;
+    type Objective = SingleObjective;
+    fn name(&self) -> &str { "PermProblem" }
+}
+impl VectorProblem for PermProblem {
+    type Element = usize;
+    fn dimension(&self) -> usize { self.0 }
+}
+pub struct RealProblem(pub usize);
+impl Problem for RealProblem {
+    type Encoding = Vec<f64>;
+    type Objective = SingleObjective;
+    fn name(&self) -> &str { "RealProblem" }
+}
+impl VectorProblem for RealProblem {
+    type Element = f64;
+    fn dimension(&self) -> usize { self.0 }
+}
+impl LimitedVectorProblem for RealProblem {
+    fn domain(&self) -> Vec<std::ops::Range<f64>> { (0..self.0).map(|i| (-1.0 - i as f64)..(2.0 + i as f64)).collect() }
+}
+pub struct BitProblem(pub usize);
+impl Problem for BitProblem {
+    type Encoding = Vec<bool>;
+    type Objective = SingleObjective;
+    fn name(&self) -> &str { "BitProblem" }
+}
+impl VectorProblem for BitProblem {
+    type Element = bool;
+    fn dimension(&self) -> usize { self.0 }
+}
+
+/// Runs init + execute of `c` on a stack [below, population]; returns (height, below, mutated population) or the error / panic text.
+fn mutate<P: Problem + 'static>(problem: &P, c: &dyn Component<P>, below: Vec<P::Encoding>, pop: Vec<P::Encoding>, seed: u64)
+    -> Result<(usize, Vec<P::Encoding>, Vec<P::Encoding>), String>
+where P::Encoding: Clone + std::panic::RefUnwindSafe + std::panic::UnwindSafe, P: std::panic::RefUnwindSafe,
+{
+    let run = std::panic::AssertUnwindSafe(|| -> Result<(usize, Vec<P::Encoding>, Vec<P::Encoding>), String> {
+        let mut state: State<P> = State::new();
+        state.insert(Random::new(seed));
+        state.insert(Populations::<P>::new());
+        state.populations_mut().push(below.iter().cloned().map(Individual::new_unevaluated).collect());
+        state.populations_mut().push(pop.iter().cloned().map(Individual::new_unevaluated).collect());
+        c.init(problem, &mut state).map_err(|e| format!("init returned an error: {e}"))?;
+        c.execute(problem, &mut state).map_err(|e| format!("execute returned an error: {e}"))?;
+        let h = state.populations().len();
+        let cur = state.populations().current().iter().map(|i| i.solution().clone()).collect();
+        let b = if h >= 2 { state.populations().peek(1).iter().map(|i| i.solution().clone()).collect() } else { Vec::new() };
+        Ok((h, b, cur))
+    });
+    let prev = std::panic::take_hook();
+    std::panic::set_hook(Box::new(|_| {}));
+    let r = std::panic::catch_unwind(run);
+    std::panic::set_hook(prev);
+    match r {
+        Ok(x) => x,
+        Err(p) => Err(format!("PANIC: {}", p.downcast_ref::<String>().cloned().or_else(|| p.downcast_ref::<&str>().map(|s| s.to_string())).unwrap_or_default())),
+    }
+}
+
+// @native-harness
+pub fn c13_native_permutation_mutations() {
+    let mut cases = 0u64;
+    // first failing case per operator (all operators are always run, so that one defect does not hide another)
+    let mut failures: Vec<(String, String, u64)> = Vec::new();
+    for len in 2..=6usize {
+        let problem = PermProblem(len);
+        let mut ops: Vec<(String, Box<dyn Component<PermProblem>>)> = vec![
+            ("ScrambleMutation(rm=0)".into(), ScrambleMutation::new(0.0)),
+            ("ScrambleMutation(rm=1)".into(), ScrambleMutation::new_full()),
+            ("InversionMutation".into(), InversionMutation::new::<PermProblem, ()>()),
+            ("InsertionMutation".into(), InsertionMutation::new()),
+            ("TranslocationMutation".into(), TranslocationMutation::new()),
+        ];
+        for k in 2..=len.min(4) {
+            ops.push((format!("SwapMutation({k})"), SwapMutation::new(k as u32).expect("a documented parameter value was rejected")));
+        }
+        for (name, op) in &ops {
+            for n in 0..=3usize {
+                for seed in 0..64u64 {
+                    let below = vec![(0..len).rev().collect::<Vec<usize>>()];
+                    let pop: Vec<Vec<usize>> = (0..n).map(|i| (0..len).map(|j| (j + i) % len).collect()).collect();
+                    let mut why: Option<String> = None;
+                    match mutate(&problem, op.as_ref(), below.clone(), pop.clone(), seed) {
+                        Err(e) => why = Some(format!("the operator fails on a valid population: {e}")),
+                        Ok((h, b, cur)) => {
+                            if h != 2 || b != below { why = Some("the population below was disturbed or the stack height changed".into()) }
+                            else if cur.len() != n { why = Some("the number of individuals changed".into()) }
+                            else {
+                                for (before, after) in pop.iter().zip(&cur) {
+                                    let mut s = after.clone();
+                                    s.sort_unstable();
+                                    if s != (0..len).collect::<Vec<_>>() { why = Some(format!("{after:?} is not a permutation of the elements of {before:?}")) }
+                                    else if name.contains("rm=0") && after != before { why = Some("a mutation rate of zero changed a solution".into()) }
+                                }
+                            }
+                        }
+                    }
+                    if let Some(why) = why {
+                        let op_name = name.split('(').next().unwrap().to_string();
+                        if let Some(f) = failures.iter_mut().find(|f| f.0 == op_name) { f.2 += 1 } else {
+                            failures.push((op_name, format!("op={name} solution_length={len} population_size={n} seed={seed}: {why}"), 1));
+                        }
+                    }
+                    cases += 1;
+                }
+            }
+        }
+    }
+    for (_, first, count) in &failures { eprintln!("COUNTEREXAMPLE {first}   [{count} failing cases for this operator]"); }
+    if !failures.is_empty() { panic!("permutation mutation violates C13") }
+    println!("c13_native_permutation_mutations: {} cases checked", cases);
+}
+
+// @native-harness
+pub fn c13_native_value_mutations() {
+    let mut cases = 0u64;
+    for len in 1..=4usize {
+        for n in 0..=3usize {
+            for seed in 0..32u64 {
+                // real-valued
+                let rp = RealProblem(len);
+                let rpop: Vec<Vec<f64>> = (0..n).map(|i| (0..len).map(|j| 0.25 * (i as f64) - 0.5 * (j as f64)).collect()).collect();
+                let rbelow = vec![vec![0.5; len]];
+                let rops: Vec<(&str, f64, Box<dyn Component<RealProblem>>)> = vec![
+                    ("NormalMutation", 0.0, NormalMutation::new(0.3, 0.0)), ("NormalMutation", 1.0, NormalMutation::new_dev(0.3)),
+                    ("NormalMutation", 0.5, NormalMutation::new(0.3, 0.5)),
+                    ("UniformMutation", 0.0, UniformMutation::new(0.7, 0.0)), ("UniformMutation", 1.0, UniformMutation::new_bound(0.7)),
+                    ("UniformMutation", 0.5, UniformMutation::new(0.7, 0.5)),
+                    ("PartialRandomSpread", 0.0, PartialRandomSpread::new(0.0)), ("PartialRandomSpread", 1.0, PartialRandomSpread::new_full()),
+                    ("PartialRandomSpread", 0.5, PartialRandomSpread::new(0.5)),
+                ];
+                for (name, rm, op) in &rops {
+                    let fail = |why: String| -> ! {
+                        eprintln!("COUNTEREXAMPLE op={name} rm={rm} dimension={len} population_size={n} seed={seed}: {why}");
+                        panic!("real-valued mutation violates C13")
+                    };
+                    match mutate(&rp, op.as_ref(), rbelow.clone(), rpop.clone(), seed) {
+                        Err(e) => fail(format!("the operator fails on a valid population: {e}")),
+                        Ok((h, b, cur)) => {
+                            if h != 2 || b != rbelow { fail("the population below was disturbed or the stack height changed".into()) }
+                            if cur.len() != n { fail("the number of individuals changed".into()) }
+                            for (before, after) in rpop.iter().zip(&cur) {
+                                if after.len() != len { fail("the dimension changed".into()) }
+                                if *rm == 0.0 && after != before { fail("a mutation rate of zero changed a solution".into()) }
+                                if after.iter().any(|x| !x.is_finite()) { fail(format!("non-finite coordinate in {after:?}")) }
+                                for (j, (x0, x1)) in before.iter().zip(after).enumerate() {
+                                    if *name == "UniformMutation" && (x1 - x0).abs() > 0.7 { fail(format!("coordinate {j} moved by more than the bound: {x0} -> {x1}")) }
+                                    if *name == "PartialRandomSpread" && x1 != x0 && !rp.domain()[j].contains(x1) { fail(format!("coordinate {j} was re-sampled outside its domain: {x1}")) }
+                                }
+                            }
+                        }
+                    }
+                    cases += 1;
+                }
+                // bit-valued
+                let bp = BitProblem(len);
+                let bpop: Vec<Vec<bool>> = (0..n).map(|i| (0..len).map(|j| (i + j) % 2 == 0).collect()).collect();
+                let bbelow = vec![vec![true; len]];
+                let bops: Vec<(&str, f64, f64, Box<dyn Component<BitProblem>>)> = vec![
+                    ("BitFlipMutation", 0.0, 0.0, BitFlipMutation::new(0.0)), ("BitFlipMutation", 1.0, 0.0, BitFlipMutation::new(1.0)),
+                    ("BitFlipMutation", 0.5, 0.0, BitFlipMutation::new(0.5)),
+                    ("PartialRandomBitstring", 0.0, 0.5, PartialRandomBitstring::new(0.5, 0.0)),
+                    ("PartialRandomBitstring", 1.0, 1.0, PartialRandomBitstring::new_full(1.0)),
+                    ("PartialRandomBitstring", 1.0, 0.0, PartialRandomBitstring::new_full(0.0)),
+                    ("PartialRandomBitstring", 0.5, 1.0, PartialRandomBitstring::new(1.0, 0.5)),
+                    ("PartialRandomBitstring", 1.0, 0.5, PartialRandomBitstring::new_uniform_full()),
+                ];
+                for (name, rm, p, op) in &bops {
+                    let fail = |why: String| -> ! {
+                        eprintln!("COUNTEREXAMPLE op={name} rm={rm} p={p} dimension={len} population_size={n} seed={seed}: {why}");
+                        panic!("bit-valued mutation violates C13")
+                    };
+                    match mutate(&bp, op.as_ref(), bbelow.clone(), bpop.clone(), seed) {
+                        Err(e) => fail(format!("the operator fails on a valid population: {e}")),
+                        Ok((h, b, cur)) => {
+                            if h != 2 || b != bbelow { fail("the population below was disturbed or the stack height changed".into()) }
+                            if cur.len() != n { fail("the number of individuals changed".into()) }
+                            for (before, after) in bpop.iter().zip(&cur) {
+                                if after.len() != len { fail("the dimension changed".into()) }
+                                if *rm == 0.0 && after != before { fail("a mutation rate of zero changed a solution".into()) }
+                                if *name == "BitFlipMutation" && *rm == 1.0 && after.iter().zip(before).any(|(a, b)| a == b) { fail("rate 1 must flip every bit".into()) }
+                                if *name == "PartialRandomBitstring" && *rm == 1.0 && *p == 1.0 && after.iter().any(|a| !*a) { fail("p = 1 at rate 1 must set every bit".into()) }
+                                if *name == "PartialRandomBitstring" && *rm == 1.0 && *p == 0.0 && after.iter().any(|a| *a) { fail("p = 0 at rate 1 must clear every bit".into()) }
+                                if *name == "PartialRandomBitstring" && *p == 1.0 && after.iter().zip(before).any(|(a, b)| *b && !*a) { fail("p = 1 can only set bits".into()) }
+                            }
+                        }
+                    }
+                    cases += 1;
+                }
+            }
+        }
+    }
+    println!("c13_native_value_mutations: {} cases checked", cases);
+}
